@@ -22,7 +22,7 @@ from .c20 import fresh_requirements, r_freshcopy
 MANIFEST = {
     "level": "other",
     "technique": "static analysis: symbolic bound facts from clamp idioms (if v < E: v = E) on the symbolically evaluated root(), typestate of the Newton iterate against the loop-carried bracket, must-pass-through ordering in set(), range-refusal path rule, fresh-container analysis for the copy constructor, exhaustive evaluation of the ordering routine on every weak ordering of the abscissae and of the duplicate test, symbolic execution of the Newton coefficient table for 2..6 points (one divided difference per abscissa on every path), partial evaluation of the conjunction helpers for every table size 3..9 (time axis and ordinates handed to the interpolant), symbolic execution of _newton_diff / __call__ / derivative on tables of 2..9 symbolic points with the interpolation identities (degree below n, value Y_k at X_k, derivative() == formal derivative) discharged as rational-function identities by polynomial normal form",
-    "text": "Decides for every call (not sampled limits) that root() evaluates the interpolant only inside the table, that any accepted Newton iterate is checked against the current bracket (so the answer stays in [xl, xh]), that out-of-range and duplicated abscissae are refused before any table is computed, and that the shared lists of a copy are never mutated in place. The ordering step is shown to sort every ordering of the input points, and the conjunction helpers to tabulate the coordinate differences against n = -k..k with the middle used entry at n = 0 for every table size (even sizes lose their last entry). That the interpolant is the interpolating polynomial is proved, in exact arithmetic, for every table at once: with the points symbolic and in no particular order, __call__'s value is a polynomial of degree below n whose value at every tabulated abscissa X_k is Y_k once the coefficients are the divided differences _newton_diff computes (all points symbolic for n = 2..4, 5 in the thorough tier; symbolic ordinates over sampled distinct rational abscissae for n up to 9) - so it reproduces every polynomial of degree below n - each `x is tabulated` short cut returns the ordinate of the same index, and derivative(x) is identically the formal derivative of that polynomial (n = 2..9). The 1e-9 floating-point tolerance and the convergence of the root iteration are numerical and not decided.",
+    "text": "Decides for every call (not sampled limits) that root() evaluates the interpolant only inside the table, that any accepted Newton iterate is checked against the current bracket (so the answer stays in [xl, xh]), that out-of-range and duplicated abscissae are refused before any table is computed, and that the shared lists of a copy are never mutated in place. The ordering step is shown to sort every ordering of the input points, and the conjunction helpers to tabulate the coordinate differences against n = -k..k with the middle used entry at n = 0 for every table size (even sizes lose their last entry). That the interpolant is the interpolating polynomial is proved, in exact arithmetic, for every table at once: with the points symbolic and in no particular order, __call__'s value is a polynomial of degree below n whose value at every tabulated abscissa X_k is Y_k once the coefficients are the divided differences _newton_diff computes (all points symbolic for n = 2..4, 5 in the thorough tier; symbolic ordinates over sampled distinct rational abscissae for n up to 9) - so it reproduces every polynomial of degree below n - each `x is tabulated` short cut returns the ordinate of the same index, and derivative(x) is identically the formal derivative of that polynomial (n = 2..9). The 1e-9 floating-point tolerance and the convergence of the root iteration are numerical and not decided. For every table size 2..9 the value-returning paths of __call__ and derivative() are shown not to be taken for an abscissa just outside the table (their path conditions are executed on the table 0..n-1 at x = -1 and x = n).",
     "note": "Trusted: the clamp idioms enumerated in the checker (if v < m: v = m / if v > M: v = M and their <=, >= and min/max forms). Undecided: floating-point error of the polynomial reproduction (1e-9), convergence, sign-change existence.",
 }
 MOD = "Interpolation"
